@@ -164,7 +164,10 @@ pub fn update_position_reply(
     } else if swap.margin_to_vault > Integer::zero() {
         match config.eligible_collateral {
             AssetInfo::NativeToken { .. } => {
-                funds.required = funds.required.checked_add(swap_margin)?;
+                // the net amount still owed after netting the closed leg, as the cw20 arm pulls
+                funds.required = funds
+                    .required
+                    .checked_add(swap.margin_to_vault.value)?;
             }
             AssetInfo::Token { .. } => {
                 msgs.push(
@@ -317,16 +320,6 @@ pub fn reverse_position_reply(
 
         // set fees_paid flag to true so they aren't paid twice
         swap.fees_paid = true;
-
-        // update the funds required
-        funds.required = if swap.margin_to_vault.is_positive() {
-            funds.required.checked_add(swap.margin_to_vault.value)?
-        } else if funds.required > swap.margin_to_vault.value {
-            funds.required.checked_sub(swap.margin_to_vault.value)?
-        } else {
-            // add both fees
-            fees.spread_fee.checked_add(fees.toll_fee)?
-        };
 
         msgs.push(internal_increase_position(
             swap.vamm.clone(),
